@@ -458,7 +458,10 @@ func (c *Ctx) orderInsensitive(fi *load.FuncInfo, g *cfgx.Graph, rs *ast.RangeSt
 		if ifs, ok := rs.Body.List[0].(*ast.IfStmt); ok && len(ifs.Body.List) == 1 {
 			if b, ok := ifs.Body.List[0].(*ast.BranchStmt); ok && b.Tok == token.CONTINUE {
 				if be, ok := ast.Unparen(ifs.Cond).(*ast.BinaryExpr); ok && be.Op == token.NEQ && keyObj != nil {
-					isKey := func(e ast.Expr) bool { id, ok := ast.Unparen(e).(*ast.Ident); return ok && astx.Obj(info, id) == keyObj }
+					isKey := func(e ast.Expr) bool {
+						id, ok := ast.Unparen(e).(*ast.Ident)
+						return ok && astx.Obj(info, id) == keyObj
+					}
 					if (isKey(be.X) && !astx.Mentions(info, be.Y, keyObj)) || (isKey(be.Y) && !astx.Mentions(info, be.X, keyObj)) {
 						uniqueKey = true
 					}
